@@ -163,7 +163,7 @@ NTT_RULE["C05"] = ("configurations (N=2^a<=N_ext=2^e incl. a=0 and a=e, object b
 NTT_REQUIRED = {
     "C03": ["cfg:NTT", "cfg:alias0", "cfg:alias1", "cfg:alias2", "cfg:blocked_even", "cfg:blocked_uneven", "cfg:caller_buffer", "cfg:even_effective_phases",
             "cfg:odd_effective_phases", "cfg:nblock_clamped", "cfg:nphase_clamped", "cfg:size_below_object_domain", "cfg:size_one", "cfg:size_zero_noop",
-            "cfg:zero_columns_noop", "cfg:identity_matrix_input", "cfg:boundary_input", "cfg:object_used_before", "hook:revperm:branch0", "hook:revperm:branch2",
+            "cfg:zero_columns_noop", "cfg:identity_matrix_input", "cfg:boundary_input", "cfg:sparse_structured_input", "cfg:object_used_before", "hook:revperm:branch0", "hook:revperm:branch2",
             "hook:ntt_pass:writeback0", "hook:ntt_land:in_destination", "monitor:linearity_triples", "monitor:root_table_entries_checked",
             "omp_shim:regions_with_permuted_member_order", "omp:real_libgomp_processes", "oracle:naive_dft_columns", "oracle:recursive_fft_columns", "threadlimit2:cfg:alias1",
             "family:callers_inside_an_OpenMP_team", "family:plain_thread_callers"],
@@ -176,7 +176,7 @@ NTT_REQUIRED["C05"] = ["cfg:extendPol", "cfg:alias0", "cfg:alias1", "cfg:blocked
                        "cfg:odd_effective_phases", "cfg:extend_same_size", "cfg:extend_onsite_zero_padding", "cfg:size_one", "cfg:boundary_input", "cfg:object_used_before",
                        "hook:revperm:branch0", "hook:revperm:branch1", "hook:revperm:branch2", "hook:revperm:branch3", "hook:ntt_pass:writeback2",
                        "hook:computeR", "monitor:linearity_triples", "monitor:root_table_entries_checked", "omp_shim:regions_with_permuted_member_order",
-                       "omp:real_libgomp_processes", "threadlimit2:cfg:alias1", "family:callers_inside_an_OpenMP_team", "family:plain_thread_callers"]
+                       "omp:real_libgomp_processes", "threadlimit2:cfg:alias1", "family:callers_inside_an_OpenMP_team", "family:plain_thread_callers", "cfg:sparse_structured_input"]
 
 
 def check_shim_symbols(binary):
@@ -348,7 +348,7 @@ C12_RULE = ("workloads: NTT/INTT/extendPol configurations up to 2^6 (quick) / 2^
             "execution. evaluations = executions compared; distinct = workloads; all non-trivial (each enters >= 1 parallel region with > 1 member).")
 C12_REQUIRED = ["mode:threads", "mode:seq", "mode:libgomp", "hook:revperm:branch0", "hook:revperm:branch1", "hook:revperm:branch2", "hook:revperm:branch3",
                 "hook:ntt_pass:writeback0", "hook:ntt_pass:writeback1", "hook:ntt_pass:writeback2", "team:1", "team:2", "team:3", "team:4", "team:7", "team:8", "team:16", "team:33",
-                "team:nonpositive_thread_argument", "team:delivered_smaller_than_requested", "limit3:team:33", "onecpu:team:33", "threads:runs_with_injected_startup_delays", "omp_shim:regions_with_permuted_member_order",
+                "team:nonpositive_thread_argument", "team:delivered_smaller_than_requested", "team:callers_inside_an_OpenMP_team", "limit3:team:33", "onecpu:team:33", "threads:runs_with_injected_startup_delays", "omp_shim:regions_with_permuted_member_order",
                 "omp_shim:distinct_team_member_orders(capped_8192_per_process)", "tsan:processes_completed", "coldstart:first_library_use_is_a_team_of_8"] + \
     ["coldstart:" + w for w in ("merkletree_seq", "merkletree_avx", "merkletree_avx512", "merkletree", "merkletree_batch_seq", "merkletree_batch_avx", "merkletree_batch_avx512", "merkletree_batch")] + \
     ["workload:" + w for w in ("NTT", "INTT", "extendPol", "merkletree_seq", "merkletree_avx", "merkletree_avx512", "merkletree", "merkletree_batch_seq",
@@ -387,7 +387,7 @@ def check_races(prop, tier, seed, work, t0):
         r.counters["tsan:processes_completed"] = NCPU if r.counters.get("mode:threads", 0) == NCPU else 0
         res.merge(r)
         res.merge(vfw.run_shards(work, bins["races-shim512"], prop, tier, seed, NCPU, ["--mode", "seq", "--nofork"], tag="shim-seq", timeout=to))
-    res.merge(vfw.run_shards(work, bins["races-prod512"], prop, tier, seed, 8, ["--mode", "libgomp", "--nofork"], tag="libgomp", timeout=to))
+    res.merge(vfw.run_shards(work, bins["races-prod512"], prop, tier, seed, 8, ["--mode", "libgomp", "--nofork", "--teamcallers", "1"], tag="libgomp", timeout=to))
     # libgomp delivering fewer threads than requested (thread limit 3)
     r3 = vfw.run_shards(work, bins["races-prod512"], prop, tier, seed, 8, ["--mode", "libgomp", "--nofork", "--thin", "24"], tag="libgomp-limit3", timeout=to,
                         env={"OMP_THREAD_LIMIT": "3"})
